@@ -97,3 +97,109 @@ Lemma mu_nonneg o : 0 <= mu o.
 Proof. apply mu_n_nonneg. Qed.
 
 End Budgets.
+
+Lemma len_CB_firstn_P T (j:nat) c : len (CB (firstn j T) c) = P T c (Z.of_nat j).
+Proof. unfold CB, P. rewrite colt_firstn, len_concat, Nat2Z.id. reflexivity. Qed.
+
+Lemma nth_skipn_ {A} (d:A) m n (l:list A) : nth n (skipn m l) d = nth (m + n) l d.
+Proof.
+  revert l. induction m as [|m IH]; intros l; [reflexivity|]. destruct l as [|x l]; [destruct n; reflexivity|].
+  cbn [skipn Nat.add nth]. apply IH.
+Qed.
+
+Lemma skipn_skipn_ {A} a b (l:list A) : skipn a (skipn b l) = skipn (b + a) l.
+Proof.
+  revert l. induction b as [|b IH]; intros l; [reflexivity|]. destruct l as [|x l]; [rewrite !skipn_nil; reflexivity|].
+  cbn [skipn Nat.add]. apply IH.
+Qed.
+
+(* ---- the driver ------------------------------------------------------------------------------ *)
+Section DriverR.
+Variables (hdr : list cell) (rows : list (list cell)) (file : list Z) (crs ncols : Z) (index_map : list Z).
+Let ALL := render_file (hdr :: rows).
+Let cbs := crs * 2 * ncols.
+Hypothesis Hncols : 0 < ncols.
+Hypothesis Hhdr : len hdr = ncols.
+Hypothesis Hrect : Forall (fun rw : list cell => len rw = ncols) rows.
+Hypothesis Hfile : file = ALL \/ (file ++ [NL] = ALL /\ file <> [] /\ last file NL <> NL).
+Hypothesis Hwin : forall r, In r (hdr :: rows) -> len (render_row r) <= cbs.
+Hypothesis Himap : Forall (fun c => 0 <= c < ncols) index_map.
+
+Notation okoffs := (okoffs ncols).
+Notation mu := (mu ncols rows).
+
+Lemma cbs_pos' : 0 < cbs.
+Proof. pose proof (Hwin hdr (or_introl eq_refl)) as H. pose proof (len_render_row_ge hdr) as (_ & H1). lia. Qed.
+
+Definition pos (m:nat) : Z := len (render_file (hdr :: firstn m rows)).
+
+(* one iteration of the driver, once the kernel call and the import are known *)
+Lemma drv_step_post2 chunk hd acc inds vals offsd dif dvf cont st imps tr content start out imps' :
+  (if negb dif && negb dvf
+   then content = content_of file cbs chunk /\ start = 0 /\ len (slice file chunk (chunk + cbs)) <> 0
+   else content = cont /\ start = st) ->
+  fast_csv_reader (fsm_fuel content start) content start inds vals offsd hd = Ok out ->
+  (f_ifull out = false -> f_vfull out = false -> 0 < f_next out) ->
+  import_all (f_inds out) (f_vals out) offsd index_map (f_rows out) imps = Ok imps' ->
+  (f_vfull out = true -> 0 <= f_vfc out < ncols) -> len offsd = ncols + 1 ->
+  exists d', drv_step file ncols cbs index_map (mkDst chunk hd acc inds vals offsd dif dvf cont st imps tr) = Ok (inl d') /\
+    let full := (f_ifull out || f_vfull out) && (f_next out <? len content) in
+    d_chunk d' = (if full then chunk else chunk + f_next out) /\ d_hdr d' = false /\ d_acc d' = acc + f_rows out /\
+    d_inds d' = (if f_ifull out then zeros2 ncols ((fst (f_inds out) - 1) * 2 + 1) else f_inds out) /\
+    d_offs d' = (if f_vfull out then dbl offsd (f_vfc out) else offsd) /\
+    d_vals d' = (if f_vfull out then zeros (last (dbl offsd (f_vfc out)) 0) else f_vals out) /\
+    d_ifull d' = full && f_ifull out /\ d_vfull d' = full && f_vfull out /\
+    d_content d' = content /\ d_start d' = (if full then f_next out else start) /\ d_imps d' = imps'.
+Proof.
+  intros Hfr Hk Hnext Himp Hvfc Hlo.
+  unfold drv_step. cbn [d_ifull d_vfull d_chunk d_content d_start d_inds d_vals d_offs d_hdr d_imps d_acc d_trace].
+  cbv zeta.
+  assert (Hcommon : forall (X:res (dst + dst)),
+    (do r <- fast_csv_reader (fsm_fuel content start) content start inds vals offsd hd;
+     if negb (f_ifull r) && negb (f_vfull r) && (f_next r <=? 0) then Raise E_ValueError else
+     do imps'0 <- import_all (f_inds r) (f_vals r) offsd index_map (f_rows r) imps;
+     do '(offs', vals') <-
+        (if f_vfull r && negb (f_vfc r =? -1) then
+           do a <- get 30 offsd (f_vfc r + 1);
+           do b <- get 30 offsd (f_vfc r);
+           Ok (firstn (Z.to_nat (f_vfc r + 1)) offsd ++ map (fun x => x + (a - b) * (2 - 1)) (skipn (Z.to_nat (f_vfc r + 1)) offsd),
+               zeros (last (firstn (Z.to_nat (f_vfc r + 1)) offsd ++ map (fun x => x + (a - b) * (2 - 1)) (skipn (Z.to_nat (f_vfc r + 1)) offsd)) 0))
+         else Ok (offsd, f_vals r));
+     Ok (inl (mkDst (if (f_ifull r || f_vfull r) && (f_next r <? len content) then chunk else chunk + f_next r) false (acc + f_rows r)
+                 (if f_ifull r then zeros2 ncols ((fst (f_inds r) - 1) * 2 + 1) else f_inds r) vals' offs'
+                 ((f_ifull r || f_vfull r) && (f_next r <? len content) && f_ifull r)
+                 ((f_ifull r || f_vfull r) && (f_next r <? len content) && f_vfull r) content
+                 (if (f_ifull r || f_vfull r) && (f_next r <? len content) then f_next r else start)
+                 imps'0 ([chunk; start; len content; f_next r; f_rows r; b2z (f_ifull r); b2z (f_vfull r); b2z (f_esc r); b2z (f_cand r)] :: tr)))) = X ->
+    exists d', X = Ok (inl d') /\
+      d_chunk d' = (if (f_ifull out || f_vfull out) && (f_next out <? len content) then chunk else chunk + f_next out) /\
+      d_hdr d' = false /\ d_acc d' = acc + f_rows out /\
+      d_inds d' = (if f_ifull out then zeros2 ncols ((fst (f_inds out) - 1) * 2 + 1) else f_inds out) /\
+      d_offs d' = (if f_vfull out then dbl offsd (f_vfc out) else offsd) /\
+      d_vals d' = (if f_vfull out then zeros (last (dbl offsd (f_vfc out)) 0) else f_vals out) /\
+      d_ifull d' = (f_ifull out || f_vfull out) && (f_next out <? len content) && f_ifull out /\
+      d_vfull d' = (f_ifull out || f_vfull out) && (f_next out <? len content) && f_vfull out /\
+      d_content d' = content /\ d_start d' = (if (f_ifull out || f_vfull out) && (f_next out <? len content) then f_next out else start) /\
+      d_imps d' = imps').
+  { intros X <-. rewrite Hk. cbn [bind].
+    assert (Ev : negb (f_ifull out) && negb (f_vfull out) && (f_next out <=? 0) = false).
+    { destruct (f_ifull out) eqn:E1; [reflexivity|]. destruct (f_vfull out) eqn:E2; [reflexivity|]. cbn [negb andb].
+      apply Z.leb_gt. apply Hnext; reflexivity. }
+    rewrite Ev. rewrite Himp. cbn [bind].
+    destruct (f_vfull out) eqn:Evf.
+    - specialize (Hvfc eq_refl). assert (Ene : (f_vfc out =? -1) = false) by (apply Z.eqb_neq; lia).
+      rewrite Ene. cbn [negb andb]. rewrite !getZ_ok by lia. cbn [bind].
+      eexists. split; [reflexivity|]. cbn [d_chunk d_hdr d_acc d_inds d_vals d_offs d_ifull d_vfull d_imps d_content d_start].
+      unfold dbl. repeat split.
+    - cbn [andb bind]. eexists. split; [reflexivity|]. cbn [d_chunk d_hdr d_acc d_inds d_vals d_offs d_ifull d_vfull d_imps d_content d_start].
+      repeat split. }
+  destruct dif, dvf; cbn [negb andb] in Hfr |- *.
+  - destruct Hfr as (-> & ->). apply Hcommon. reflexivity.
+  - destruct Hfr as (-> & ->). apply Hcommon. reflexivity.
+  - destruct Hfr as (-> & ->). apply Hcommon. reflexivity.
+  - destruct Hfr as (Hc & -> & Hc0). unfold content_of in Hc.
+    destruct (len (slice file chunk (chunk + cbs)) =? 0) eqn:E0; [apply Z.eqb_eq in E0; contradiction|].
+    rewrite <- Hc. apply Hcommon. reflexivity.
+Qed.
+
+End DriverR.
